@@ -47,6 +47,8 @@ fn main() {
         ["gen", "edit"] => edit::gen(&args),
         ["gen", "step"] => cfr::gen_step(&args),
         ["replay", "step"] => cfr::replay_step(&args),
+        ["gen", "step2"] => cfr::gen_step2(&args),
+        ["replay", "step2"] => cfr::replay_step2(&args),
         ["gen", "run"] => cfr::gen_run(&args),
         ["replay", "run"] => cfr::replay_run(&args),
         ["record", "solve"] => monitor::record(&args),
